@@ -137,10 +137,19 @@ class Moved(HObj):
         return self
 
 
-class DictIter(Sym):
-    """d.values() / d.keys() / d.items() of a pooled dict: t = the enumeration of the keys"""
+class DictIter:
+    """d.values() / d.keys() / d.items() of a pooled dict, as the iterable of a `for` loop: an enumeration
+    key_at(0..n-1) of the key set without repetition (pos is its inverse)"""
 
-    __slots__ = ('d', 'mode', 'dom0')
+    def __init__(self, d, mode, dom0, n, key_at, pos):
+        self.d, self.mode, self.dom0, self.n, self.key_at, self.pos = d, mode, dom0, n, key_at, pos
+
+
+class KeyList:
+    """the local `_keys` of a loop over a pooled dict: _keys[j] is the key visited in iteration j, len(_keys) their number"""
+
+    def __init__(self, it):
+        self.it = it
 
 
 # ---------------------------------------------------------------------------
@@ -209,6 +218,7 @@ def pool_ref(ex, name, old=None):
     g = ex.obj(ex.ghost)
     if name not in g.fields:
         ex.wobj(ex.ghost).fields[name] = make_pool(ex, _pool_decl(ex, name), name)
+        type_axioms(ex, ex.obj(ex.ghost).fields[name])
     r = ex.obj(ex.ghost).fields[name]
     return Ref(r.oid, old) if old else r
 
@@ -276,35 +286,54 @@ def alloc_in(ex, pref_pool, cls_index=None):
     return PRef(pref_pool, Sym(i, 'int'), False)
 
 
-def _facts(ex):
-    return ex.__dict__.setdefault('heap_facts', set())
+def _ref_ok(ex, kind, term):
+    """well-typedness of a stored value of element kind `kind` (None when nothing to say)"""
+    if isinstance(kind, tuple) and kind and kind[0] == 'pref':
+        tp = ex.obj(pool_ref(ex, kind[1]))
+        ok = z3.And(term >= 0, z3.Select(tp.dom, term))
+        return z3.Or(term == -1, ok) if kind[2] else ok
+    if isinstance(kind, tuple) and kind and kind[0] == 'tup':
+        sort, mk, projs = VAL.tuple_parts(kind)
+        parts = [_ref_ok(ex, k, p(term)) for p, k in zip(projs, kind[1])]
+        parts = [x for x in parts if x is not None]
+        return z3.And(*parts) if parts else None
+    return None
 
 
-def _add_fact(ex, f, key):
-    """a typing fact (valid in every well-typed heap); cached per path outside quantifier bodies"""
-    if ex.quant:
-        ex.pc.append(f)  # captured as an antecedent by seqspec._quant
+def type_axioms(ex, pref):
+    """the heap state just introduced (pre-state or havoc) is well typed: every stored reference points to an
+    allocated object of the declared pool, IntRange fields are in range.  (States derived by stores keep this by
+    construction: only references in hand can be stored, objects are never deallocated.)"""
+    pool = ex.obj(pref)
+    n = ex.fresh_name('ty')
+    i = z3.Int(f'__t!{n}')
+    k = z3.Int(f'__u!{n}')
+    live = z3.And(i >= 0, z3.Select(pool.dom, i))
+    ex.add_def(_forall([i], z3.Implies(z3.Select(pool.dom, i), i >= 0), [z3.Select(pool.dom, i)]))
+    if pool.vkind is not None:
+        dom = z3.Select(z3.Select(pool.cols['dom'][0], i), k)
+        v = z3.Select(z3.Select(pool.cols['val'][0], i), k)
+        facts = []
+        ok = _ref_ok(ex, pool.vkind, v)
+        if ok is not None:
+            facts.append(ok)
+        if 'val' in pool.ranges:
+            lo, hi = pool.ranges['val']
+            facts.append(z3.And(v >= lo, v <= hi))
+        if facts:
+            ex.add_def(_forall([i, k], z3.Implies(z3.And(live, dom), z3.And(*facts)), [v]))
         return
-    fs = _facts(ex)
-    if key in fs:
-        return
-    fs.add(key)
-    ex.keep.append(f)
-    ex.add_def(f)
-
-
-def _typing(ex, v, guard, term):
-    """v was read from the heap under `guard`: references point to allocated objects"""
-    if isinstance(v, PRef):
-        tp = ex.obj(v.mref)
-        idt = zint(v.key)
-        ok = z3.And(idt >= 0, z3.Select(tp.dom, idt))
-        if v.opt:
-            ok = z3.Or(idt == -1, ok)
-        _add_fact(ex, z3.Implies(guard, ok), ('ref', term.get_id(), tp.dom.get_id()))
-    elif isinstance(v, tuple):
-        for x in v:
-            _typing(ex, x, guard, term)
+    for name, (arr, kind, _d) in pool.cols.items():
+        v = z3.Select(arr, i)
+        facts = []
+        ok = _ref_ok(ex, kind, v)
+        if ok is not None:
+            facts.append(ok)
+        if name in pool.ranges and kind == 'int':
+            lo, hi = pool.ranges[name]
+            facts.append(z3.And(v >= lo, v <= hi))
+        if facts:
+            ex.add_def(_forall([i], z3.Implies(live, z3.And(*facts)), [v]))
 
 
 # ---------------------------------------------------------------------------
@@ -341,6 +370,16 @@ def value_to_elem(ex, v, kind):
             nd = alloc_in(ex, tp)
             ex.heap[v.oid] = Moved()
             return zint(nd.key)
+        if isinstance(v, Ref) and isinstance(ex.obj(v), LObj) and ex.obj(v).items == []:
+            # an empty list / deque literal becomes an object of a pool whose model says so (cls_attrs: adopt_empty_seq)
+            tp = pool_ref(ex, kind[1])
+            tpool = ex.obj(tp)
+            fld = tpool.models[0].cls_attrs.get('adopt_empty_seq') if len(tpool.models) == 1 else None
+            if fld:
+                nd = alloc_in(ex, tp)
+                pset(ex, nd, fld, 0)
+                ex.heap[v.oid] = Moved()
+                return zint(nd.key)
         if not isinstance(v, PRef):
             raise Unsupported(f'cannot store {v!r} as a reference to pool {kind[1]}')
         if ex.obj(v.mref).name != kind[1]:
@@ -404,11 +443,6 @@ def pget(ex, o, name):
         v = elem_to_value(ex, term, kind)
     finally:
         _OLD[0] = None
-    guard = z3.Select(pool.dom, idt)
-    _typing(ex, v, guard, term)
-    if name in pool.ranges and kind == 'int':
-        lo, hi = pool.ranges[name]
-        _add_fact(ex, z3.Implies(guard, z3.And(term >= lo, term <= hi)), ('rng', term.get_id()))
     return v
 
 
@@ -589,6 +623,30 @@ def ite(self, c, a, b):
 
 E.Path.ite = ite
 
+_orig_length = E.Path.length
+
+
+def length(self, v):
+    if isinstance(v, DictIter):
+        return mk_int(v.n)
+    if isinstance(v, KeyList):
+        return mk_int(v.it.n)
+    return _orig_length(self, v)
+
+
+E.Path.length = length
+
+_orig_as_symseq = E.Path.as_symseq
+
+
+def as_symseq(self, it):
+    if isinstance(it, DictIter):
+        return it
+    return _orig_as_symseq(self, it)
+
+
+E.Path.as_symseq = as_symseq
+
 _orig_mark_old = V.mark_old
 
 
@@ -649,11 +707,6 @@ def d_read(ex, o, k):
         v = elem_to_value(ex, term, pool.vkind)
     finally:
         _OLD[0] = None
-    guard = z3.And(z3.Select(pool.dom, idt), z3.Select(dom, kt))
-    _typing(ex, v, guard, term)
-    if 'val' in pool.ranges:
-        lo, hi = pool.ranges['val']
-        _add_fact(ex, z3.Implies(guard, z3.And(term >= lo, term <= hi)), ('rng', term.get_id()))
     return v
 
 
@@ -677,12 +730,32 @@ def d_getitem(ex, o, k):
     return d_read(ex, o, k)
 
 
+def _lazy_opt(ex, o, k):
+    """d.get(k) / d.pop(k, None) of a dict of references: the reference or None, decided when it is used"""
+    pool, idt, dom, val = dparts(ex, o)
+    if not (isinstance(pool.vkind, tuple) and pool.vkind and pool.vkind[0] == 'pref'):
+        return None
+    kt = _key(ex, k)
+    t = z3.If(z3.Select(dom, kt), z3.Select(val, kt), z3.IntVal(-1))
+    return PRef(pool_ref(ex, pool.vkind[1], o.mref.old), mk_int(t), True)
+
+
 def d_method(ex, o, name, args, kwargs):
     if name == 'get':
+        dflt = args[1] if len(args) > 1 else kwargs.get('default')
+        if dflt is None and not isinstance(args[0], (str, bytes, tuple)) and args[0] is not None:
+            r = _lazy_opt(ex, o, args[0])
+            if r is not None:
+                return r
         if ex.branch(d_has(ex, o, args[0])):
             return d_read(ex, o, args[0])
-        return args[1] if len(args) > 1 else kwargs.get('default')
+        return dflt
     if name == 'pop':
+        if len(args) > 1 and args[1] is None:
+            r = _lazy_opt(ex, o, args[0])
+            if r is not None:
+                d_write(ex, o, args[0], None, present=False)
+                return r
         if ex.branch(d_has(ex, o, args[0])):
             v = d_read(ex, o, args[0])
             d_write(ex, o, args[0], None, present=False)
@@ -704,18 +777,18 @@ def d_method(ex, o, name, args, kwargs):
 
 def make_iter(ex, o, mode):
     pool, idt, dom, val = dparts(ex, o)
-    n = ex.fresh_name('it')
-    order = z3.Const(f'order!{n}', z3.SeqSort(I))
-    idx = z3.Function(f'pos!{n}', I, I)
-    i = z3.Int(f'__i!{n}')
-    k = z3.Int(f'__k!{n}')
-    ln = z3.Length(order)
-    # the enumeration lists every key exactly once: pos is the inverse of order
-    ex.add_def(_forall([i], z3.Implies(z3.And(0 <= i, i < ln), z3.And(z3.Select(dom, order[i]), idx(order[i]) == i)), [order[i]]))
-    ex.add_def(_forall([k], z3.Implies(z3.Select(dom, k), z3.And(0 <= idx(k), idx(k) < ln, order[idx(k)] == k)), [z3.Select(dom, k)]))
-    it = DictIter(order, ('seq', 'int'))
-    it.d, it.mode, it.dom0 = o, mode, dom
-    ex.store_name('_keys', ex.alloc(LObj(None, Sym(order, ('seq', 'int')))))
+    nm = ex.fresh_name('it')
+    n = z3.Int(f'n!{nm}')
+    key_at = z3.Function(f'key_at!{nm}', I, I)
+    pos = z3.Function(f'pos!{nm}', I, I)
+    i = z3.Int(f'__i!{nm}')
+    k = z3.Int(f'__k!{nm}')
+    ex.add_def(n >= 0)
+    # the enumeration lists every key exactly once: pos is the inverse of key_at
+    ex.add_def(_forall([i], z3.Implies(z3.And(0 <= i, i < n), z3.And(z3.Select(dom, key_at(i)), pos(key_at(i)) == i)), [key_at(i)]))
+    ex.add_def(_forall([k], z3.Implies(z3.Select(dom, k), z3.And(0 <= pos(k), pos(k) < n, key_at(pos(k)) == k)), [z3.Select(dom, k)]))
+    it = DictIter(o, mode, dom, n, key_at, pos)
+    ex.store_name('_keys', KeyList(it))
     return it
 
 
@@ -724,7 +797,7 @@ def iter_item(ex, it, i):
     if not ex.spec_mode and not dom.eq(it.dom0):
         if not ex.branch(mk_bool(dom == it.dom0)):
             ex.raise_(RuntimeError, 'dictionary changed size during iteration')
-    key = mk_int(it.t[zint(i)])
+    key = mk_int(it.key_at(zint(i)))
     if it.mode == 'keys':
         return key
     v = d_read(ex, it.d, key)
@@ -737,6 +810,8 @@ _orig_subscript = M.subscript
 def subscript(ex, o, i):
     if isinstance(o, DictIter):
         return iter_item(ex, o, M.plain(i))
+    if isinstance(o, KeyList):
+        return mk_int(o.it.key_at(zint(M.plain(i))))
     if isinstance(o, PRef):
         o = deref(ex, o, '__getitem__')
         return d_getitem(ex, o, i)
@@ -822,7 +897,7 @@ _orig_fresh = V.Config.fresh
 
 def fresh(self, path, t, hint):
     if isinstance(t, PoolOf):
-        return make_pool(path, t, hint[6:] if hint.startswith('ghost.') else hint)
+        return pool_ref(path, hint[6:] if hint.startswith('ghost.') else hint)
     if isinstance(t, RefT):
         pr = pool_ref(path, t.pool)
         i = z3.Int(path.fresh_name(hint))
@@ -841,11 +916,16 @@ def havoc_map(self, path, ref, hint):
     ho = path.heap[ref.oid]
     if isinstance(ho, Pool):
         old_dom = ho.dom
+        old_cls = ho.cols['__cls__'][0] if '__cls__' in ho.cols else None
         _orig_havoc_map(self, path, ref, ho.name)
         ho = path.heap[ref.oid]
         i = z3.Int(f'__a!{path.fresh_name("m")}')
-        # objects are never deallocated
+        # objects are never deallocated, and an object never changes its class
         path.add_def(_forall([i], z3.Implies(z3.Select(old_dom, i), z3.Select(ho.dom, i)), [z3.Select(old_dom, i)]))
+        if old_cls is not None:
+            new_cls = ho.cols['__cls__'][0]
+            path.add_def(_forall([i], z3.Implies(z3.Select(old_dom, i), z3.Select(new_cls, i) == z3.Select(old_cls, i)), [z3.Select(new_cls, i)]))
+        type_axioms(path, ref)
         return
     return _orig_havoc_map(self, path, ref, hint)
 
@@ -858,7 +938,7 @@ _orig_havoc_like = V.Config.havoc_like
 def havoc_like(self, path, v, hint):
     if isinstance(v, PRef):
         return fresh(self, path, RefT(path.obj(v.mref).name, v.opt), hint)
-    if isinstance(v, DictIter):
+    if isinstance(v, (DictIter, KeyList)):
         return v
     return _orig_havoc_like(self, path, v, hint)
 
@@ -970,6 +1050,75 @@ E.Path.proves = proves
 
 
 # ---------------------------------------------------------------------------
+# vacuity covers / cross-check samples (satisfiability queries): z3 cannot build models under the quantified
+# heap-typing axioms, so these queries are asked without them (they only say that the heap is well typed)
+# ---------------------------------------------------------------------------
+_orig_discharge = solve.discharge
+
+
+def _quick(pcs, goal, timeout_ms, seed):
+    import time as _time
+
+    for pcx, budget in pcs:
+        t0 = _time.time()
+        sq = z3.Solver()
+        sq.set('timeout', min(budget, int(timeout_ms)))
+        sq.set('random_seed', seed)
+        for p in pcx:
+            sq.add(p)
+        sq.add(z3.Not(goal))
+        if sq.check() == z3.unsat:
+            return {'status': 'proved', 'backend': 'z3', 'time': _time.time() - t0}
+    return None
+
+
+def discharge(ob, timeout_ms=20000, seed=0, both=False):
+    defs = ob.info.get('def_ids', ())
+    pc2 = [p for p in ob.pc if not (id(p) in defs and _has_quant(p))]
+    # quick attempts first (the generic pipeline prints the whole query as SMT-LIB text for cvc5 before it asks z3,
+    # which costs more than the proof itself for these large quantified contexts)
+    if not ob.expect_sat and not both and not z3.is_true(z3.simplify(ob.goal)):
+        r = _quick(([(pc2, 2000)] if len(pc2) != len(ob.pc) else []) + [(ob.pc, 4000)], ob.goal, timeout_ms, seed)
+        if r is not None:
+            return r
+    if len(pc2) == len(ob.pc):
+        return _orig_discharge(ob, timeout_ms, seed, both)
+    ob2 = E.Obligation(ob.name, ob.kind, pc2, ob.goal, ob.loc, ob.key, ob.info, ob.expect_sat, ob.abstracted)
+    note = ' (asked without the quantified heap-typing axioms)'
+    if ob.expect_sat:
+        r = _orig_discharge(ob2, timeout_ms, seed, both)
+        if r.get('status') == 'proved':
+            r['detail'] = (r.get('detail') or '') + note
+            return r
+        return _orig_discharge(ob, timeout_ms, seed, both)
+    # fewer hypotheses first: a proof without the axioms is a proof; a counter-model without them may be ill typed,
+    # so the full query gets its chance to refute it
+    r2 = _orig_discharge(ob2, min(timeout_ms, 6000), seed, False)
+    if r2.get('status') == 'proved':
+        return r2
+    r = _orig_discharge(ob, timeout_ms, seed, both)
+    if r.get('status') == 'unknown' and r2.get('status') == 'refuted':
+        r2['detail'] = (r2.get('detail') or '') + ' counter-model found' + note + '; the full query is undecided'
+        r2['time'] = r2.get('time', 0) + r.get('time', 0)
+        return r2
+    return r
+
+
+solve.discharge = discharge
+
+# consecutive obligations of one path (clause k+1 is stated with clause k as a hypothesis) are first tried as one
+# conjunction; if that fails each is discharged on its own (solve._work)
+_orig_make_groups = solve.make_groups
+
+
+def make_groups(obligations, max_group=1):
+    return _orig_make_groups(obligations, max(max_group, 8))
+
+
+solve.make_groups = make_groups
+
+
+# ---------------------------------------------------------------------------
 # counter-model concretisation (best effort: the ids of the objects)
 # ---------------------------------------------------------------------------
 _orig_model_value = solve.model_value
@@ -1078,7 +1227,9 @@ def pool_same_except(new, old, refs):
 def _except_eq(ex, new_arr, old_arr, keys):
     t = old_arr
     for kt in keys:
-        t = z3.Store(t, kt, z3.Select(new_arr, kt))
+        u = z3.Store(t, kt, z3.Select(new_arr, kt))
+        c = z3.simplify(kt >= 0)
+        t = u if z3.is_true(c) else z3.If(kt >= 0, u, t)  # (a None reference names no object)
     return new_arr == t
 
 
